@@ -20,6 +20,7 @@ import itertools
 import pysmt.operators as op
 from pysmt.environment import Environment
 from pysmt.rewritings import CNFizer, PolarityCNFizer, Ackermannizer
+import pysmt.rewritings as rewritings_mod
 from pysmt.typing import BOOL, INT, FunctionType, ArrayType, BVType
 
 import common
@@ -263,6 +264,28 @@ def gen_cases(rng, tier):
         cases.append(("cnf", f, "rule"))
     for f in converse_shapes(m, uni):
         cases.append(("cnf", f, "converse"))
+    # Boolean constants in every position (the input is not simplified, so they survive into the walk)
+    pa, pb = uni.syms[BOOL][0], uni.syms[BOOL][1]
+    cpal = [pa, m.Not(pb), m.TRUE(), m.FALSE()]
+    cbase = []
+    for C in (m.And, m.Or, m.Implies, m.Iff):
+        for u_ in cpal:
+            for v_ in cpal:
+                if u_.is_bool_constant() or v_.is_bool_constant():
+                    cbase.append(C(u_, v_))
+    for u_ in cpal:
+        for v_ in cpal:
+            for w_ in cpal:
+                if sum(1 for z in (u_, v_, w_) if z.is_bool_constant()) >= 1:
+                    cbase.append(m.Ite(u_, v_, w_))
+    cbase += [m.Not(m.TRUE()), m.Not(m.FALSE()), m.TRUE(), m.FALSE(), m.And(pa, pb, m.FALSE()), m.Or(pa, pb, m.TRUE())]
+    for g in cbase:
+        cases.append(("cnf", g, "consts"))
+    for g in (cbase if tier != "quick" else cbase[::3]):
+        cases.append(("cnf", m.Not(g), "consts"))
+        cases.append(("cnf", m.And(pb, g), "consts"))
+        cases.append(("cnf", m.Or(m.Not(pa), g), "consts"))
+        cases.append(("cnf", m.Implies(g, pa), "consts"))
     # roots that are not formulas (K only: both converters raise, the model says which exception)
     xi, yi = uni.syms[INT][0], uni.syms[INT][1]
     fi = [s for s in uni.funs if s.symbol_type().return_type.is_int_type() and len(s.symbol_type().param_types) == 1][0]
@@ -693,36 +716,64 @@ def search_cnf(ctx, env, runs, shape_ans, ig):
                               "driver_shape": sa})
             elif sa is not None and sa != "true":
                 ctx.infra("shape request answered %s" % sa)
-            if len(r.aux) > MAX_AUX:
-                ctx.count("skipped_too_many_aux")
-                continue
-            auxset = {id(a): i for i, a in enumerate(r.aux)}
-            # literal -> ("aux", i, neg) | ("atom", term, neg)
-            cl = []
-            for c in r.cs:
-                lits = []
-                for l in c:
-                    neg = False
-                    a = l
-                    if l.is_not() and id(l.arg(0)) in auxset:
-                        neg, a = True, l.arg(0)
-                    if id(a) in auxset:
-                        lits.append(("aux", auxset[id(a)], neg))
-                    else:
-                        lits.append(("atom", l, False))
-                cl.append(lits)
-            for j, (I, il) in enumerate(zip(interps, ilines)):
+            # the routes by which the result is delivered: the set (`convert`), the formula (`convert_as_formula`),
+            # and for the plain CNFizer the module functions `cnf_as_set` / `cnf` (a fresh instance each)
+            routes = [("convert", [list(c) for c in r.cs])]
+            if r.formula is not None:
+                fr = read_back(r.formula)
+                routes.append(("convert_as_formula", fr))
+                if norm_clauses(fr) != norm_clauses(r.cs):
+                    ctx.report_s({"oracle": "formula-route", "proc": r.which},
+                                 "%s: convert_as_formula is not the conjunction of the clauses of convert" % r.which,
+                                 {"proc": r.which, "formula": semantic.readable(f), "index": r.case.idx,
+                                  "stream": r.case.stream, "convert_as_formula": semantic.readable(r.formula, 1500),
+                                  "clauses": sorted(sorted(str(l) for l in c) for c in r.cs)})
+            if r.which == "cnf" and r.case.group is None and r.case.stream != "random":
                 try:
-                    fi = ask(I, il, f)
-                    need = {}
-                    for lits in cl:
-                        for (kind, t, _) in lits:
-                            if kind == "atom":
-                                need[id(t)] = ask(I, il, t)
-                except wire.OutOfFragment:
-                    ctx.count("out_of_fragment")
+                    routes.append(("cnf_as_set()", [list(c) for c in rewritings_mod.cnf_as_set(f, env)]))
+                    routes.append(("cnf()", read_back(rewritings_mod.cnf(f, env))))
+                except Exception as e:
+                    ctx.report_s({"oracle": "total", "proc": "cnf()", "error": type(e).__name__},
+                                 "cnf()/cnf_as_set() raise %s where CNFizer.convert answers" % type(e).__name__,
+                                 {"proc": "cnf()", "formula": semantic.readable(f), "index": r.case.idx,
+                                  "stream": r.case.stream})
+            fvs = set(f.get_free_variables())
+            for (route, rcs) in routes:
+                syms = set()
+                for c in rcs:
+                    for l in c:
+                        syms |= set(l.get_free_variables())
+                aux = sorted(syms - fvs, key=lambda s_: s_.symbol_name())
+                if len(aux) > MAX_AUX:
+                    ctx.count("skipped_too_many_aux")
                     continue
-                plans.append((r, j, I, fi, need, cl))
+                auxset = {id(a): i for i, a in enumerate(aux)}
+                # literal -> ("aux", i, neg) | ("atom", term, neg)
+                cl = []
+                for c in rcs:
+                    lits = []
+                    for l in c:
+                        neg = False
+                        a = l
+                        if l.is_not() and id(l.arg(0)) in auxset:
+                            neg, a = True, l.arg(0)
+                        if id(a) in auxset:
+                            lits.append(("aux", auxset[id(a)], neg))
+                        else:
+                            lits.append(("atom", l, False))
+                    cl.append(lits)
+                for j, (I, il) in enumerate(zip(interps, ilines)):
+                    try:
+                        fi = ask(I, il, f)
+                        need = {}
+                        for lits in cl:
+                            for (kind, t, _) in lits:
+                                if kind == "atom":
+                                    need[id(t)] = ask(I, il, t)
+                    except wire.OutOfFragment:
+                        ctx.count("out_of_fragment")
+                        continue
+                    plans.append((r, j, I, fi, need, cl, route, aux, rcs))
         if len(ctx.samples) < 4 and rs[0].cs is not None:
             ctx.sample({"formula": semantic.readable(f), "cnf": sorted(sorted(str(l) for l in c) for c in rs[0].cs)[:12]})
     try:
@@ -731,7 +782,7 @@ def search_cnf(ctx, env, runs, shape_ans, ig):
         ctx.report_l("driver Sem does not run", str(e))
         return
     tt_cache = {}
-    for (r, j, I, fi, need, cl) in plans:
+    for (r, j, I, fi, need, cl, route, aux, rcs) in plans:
         fv = sem[fi]
         if fv == "div0" or any(sem[i] == "div0" for i in need.values()):
             ctx.count("skipped_div0")
@@ -740,7 +791,7 @@ def search_cnf(ctx, env, runs, shape_ans, ig):
             ctx.infra("Sem driver rejected a request: %s" % fv)
             continue
         f_true = (fv == "b 1")
-        n = len(r.aux)
+        n = len(aux)
         if n not in tt_cache:
             tt_cache[n] = truth_tables(n)
         ALL, tabs = tt_cache[n]
@@ -758,18 +809,50 @@ def search_cnf(ctx, env, runs, shape_ans, ig):
             if sat == 0:
                 break
         ctx.count("S_checked_" + r.which)
+        ctx.count("S_route_" + route)
         f = r.case.f
-        rep = {"proc": r.which, "formula": semantic.readable(f), "index": r.case.idx, "stream": r.case.stream,
-               "earlier_calls_on_the_same_instance": r.case.prev, "interpretation": show_interp(I), "clauses": sorted(sorted(str(l) for l in c) for c in r.cs),
+        rep = {"proc": r.which, "route": route, "formula": semantic.readable(f), "index": r.case.idx,
+               "stream": r.case.stream, "earlier_calls_on_the_same_instance": r.case.prev,
+               "interpretation": show_interp(I), "clauses": sorted(sorted(str(l) for l in c) for c in rcs),
                "value_of_input": fv}
         if not f_true and sat != 0:
             w = (sat & -sat).bit_length() - 1
-            rep["aux_assignment"] = {a.symbol_name(): bool((w >> i) & 1) for i, a in enumerate(r.aux)}
-            ctx.report_s({"oracle": "equisat", "dir": "sound", "proc": r.which, "shape": shape_sig(f)},
-                         "%s: an interpretation falsifying the input satisfies the CNF" % r.which, rep)
+            rep["aux_assignment"] = {a.symbol_name(): bool((w >> i) & 1) for i, a in enumerate(aux)}
+            ctx.report_s({"oracle": "equisat", "dir": "sound", "proc": r.which, "route": route, "shape": shape_sig(f)},
+                         "%s (%s): an interpretation falsifying the input satisfies the CNF" % (r.which, route), rep)
         elif f_true and sat == 0:
-            ctx.report_s({"oracle": "equisat", "dir": "complete", "proc": r.which, "shape": shape_sig(f)},
-                         "%s: the input holds but no values of the definition variables satisfy the CNF" % r.which, rep)
+            ctx.report_s({"oracle": "equisat", "dir": "complete", "proc": r.which, "route": route,
+                          "shape": shape_sig(f)},
+                         "%s (%s): the input holds but no values of the definition variables satisfy the CNF"
+                         % (r.which, route), rep)
+
+
+def read_back(F):
+    """a formula produced by a formula route, read as a set of clauses (And of Or of literals; TRUE = no clause,
+    FALSE = the empty clause)"""
+    def clause(c):
+        if c.is_false():
+            return []
+        return list(c.args()) if c.is_or() else [c]
+    if F.is_true():
+        return []
+    if F.is_and():
+        return [clause(c) for c in F.args()]
+    return [clause(F)]
+
+
+def norm_clauses(cs):
+    """semantic normal form used to compare the set route with the formula route: clauses containing True dropped,
+    False literals dropped, an emptied clause = unsatisfiable"""
+    out = set()
+    for c in cs:
+        if any(l.is_true() for l in c):
+            continue
+        c2 = frozenset(l for l in c if not l.is_false())
+        if not c2:
+            return frozenset([frozenset()])
+        out.add(c2)
+    return frozenset(out)
 
 
 def shape_sig(f):
